@@ -45,7 +45,7 @@ func Storage(lists ...string) *filterlist.RuleStorage {
 	var ls []filterlist.RuleList
 	ids := ListIDs(lists...)
 	for i, l := range lists {
-		ls = append(ls, &filterlist.StringRuleList{ID: ids[i], RulesText: l})
+		ls = append(ls, &filterlist.StringRuleList{ID: ids[i], RulesText: ChopEOL(l)})
 	}
 	s, err := filterlist.NewRuleStorage(ls)
 	if err != nil {
@@ -226,4 +226,28 @@ func MoreOftenThanListed(got []string, lists ...string) (out []string) {
 	sort.Strings(out)
 
 	return out
+}
+
+// ChopEOL removes, for one content in three (decided by the content itself so
+// that a case replays identically), the line terminator after the last line:
+// a list saved without a final newline holds the same rules.
+func ChopEOL(content string) string {
+	if len(content) < 2 {
+		return content
+	}
+	h := uint32(2166136261)
+	for i := 0; i < len(content); i++ {
+		h = (h ^ uint32(content[i])) * 16777619
+	}
+	if (h>>7)%3 != 0 {
+		return content
+	}
+	if strings.HasSuffix(content, "\r\n") {
+		return content[:len(content)-2]
+	}
+	if strings.HasSuffix(content, "\n") {
+		return content[:len(content)-1]
+	}
+
+	return content
 }
